@@ -479,6 +479,10 @@ class Program:
             if desugar:
                 from . import desugar as _desugar
                 self.desugared = _desugar.run(fn_jsons)
+                # writing `x.map_err(helper)` out as a match turns the helper into a direct call: splice it in as well
+                more = inline.run(fn_jsons)
+                for k_, v_ in more.items():
+                    self.inlined.setdefault(k_, []).extend(v_)
         for j, crate in records:
                 if True:
                     k = j["kind"]
